@@ -38,14 +38,15 @@ Ids == {"v1", "v2", "v3", "v4"}
 CellsFor(bad) == {<<"num", i>> : i \in Ids} \cup {<<"miss">>} \cup (IF bad THEN {<<"bad">>} ELSE {})
 Names == <<"a", "b x", "c,d">>
 Hdr(n) == SubSeq(Names, 1, n)
+DupHdr == <<"a", "a">>          \* a repeated column name: the first one is read
 VARIABLES file, field, missing, dtype, out, wfile, back, done
 vars == <<file, field, missing, dtype, out, wfile, back, done>>
 Init == /\ \E nc \in 1..MaxCols, nr \in 0..MaxRows :
               \E body \in [1..nr -> ({<<"blank">>} \cup {<<"row", cs>> : cs \in [1..nc -> CellsFor(TRUE)]} \cup {<<"row", <<<<"num", "v1">>>>>>})] :
                   /\ Cardinality({k \in 1..nr : body[k] = <<"blank">>}) <= 1
                   /\ Cardinality({k \in 1..nr : body[k][1] = "row" /\ \E c \in 1..Len(body[k][2]) : body[k][2][c][1] = "bad"}) <= 1
-                  /\ file = <<Hdr(nc), body>>
-        /\ field \in {"a", "b x", "c,d", "nope"} /\ missing \in BOOLEAN /\ dtype \in {"Float", "Integer"}
+                  /\ file \in {<<Hdr(nc), body>>} \cup (IF nc = 2 THEN {<<DupHdr, body>>} ELSE {})
+        /\ field \in {"a", "b x", "c,d", "nope", "A", " a"} /\ missing \in BOOLEAN /\ dtype \in {"Float", "Integer"}
         /\ out = <<>> /\ wfile = <<>> /\ back = <<>> /\ done = FALSE
 \* read; and, when the read succeeds without missing cells, write the column and its reverse (under two names, listed in non-alphabetical order) and read it back
 Apply == /\ ~done /\ done' = TRUE
